@@ -1,7 +1,7 @@
 """C15 bounded stand-in: malformed input is reported (never a table), with the right line number.
 
 For every format F in {fastq, two-line fasta, wrapped fasta, bed3, bed6, bedGraph, narrowPeak, vcf, sam, gtf, gff,
-custom csv table (get_bufferclass_for_datatype)} a well-formed file of N records of unequal widths is generated from
+csv table with header line (get_bufferclass_for_datatype)} a well-formed file of N records of unequal widths is generated from
 the format's grammar; ONE violation of one class is injected at record position q (every q):
 
   marker      FASTA/FASTQ record whose header line does not start with the record marker
@@ -24,6 +24,7 @@ number of data lines before the offending line, counted from the first data line
 import gzip
 import logging
 import os
+import time
 
 from .common import Collector, TmpDir
 
@@ -39,7 +40,7 @@ _NAMES = ["a", "bb", "ccc", "d", "ee", "f"]
 _SCORES = ["0", "10", "255", "7", "1000", "3"]
 _STRANDS = ["+", "-", ".", "+", "-", "+"]
 _FLOATS = ["0.5", "12.25", "3", "100.125", "7.0", "0.25"]
-_FLOATS2 = ["1.5", "2", "30.75", "4.5", "0.5", "6"]
+_FLOATS2 = ["1.5", "2e1", "30.75", "4.5e-1", "0.5", "6"]   # a float column that also holds exponent notation
 _DNA = ["ACGT", "a", "GATTACA", "cc", "TgCaT", "AC"]
 _SIGNED = ["-1", "300", "+5", "-77", "0", "12"]          # a column with signs takes the ragged (non digit-matrix) path
 
@@ -88,13 +89,14 @@ def _col(attr, kind, values):
 
 
 _BED3 = [_col("chromosome", "str", _CHROMS), _col("start", "int", _STARTS), _col("stop", "int", _STOPS)]
-_BED6 = _BED3 + [_col("name", "str", _NAMES), _col("score", "int", _SCORES), _col("strand", "strand", _STRANDS)]
+# Bed6.score is Optional[int]: a lone '.' (and, by the same code, an empty field) is the documented missing value
+_BED6 = _BED3 + [_col("name", "str", _NAMES), _col("score", "optint", _SCORES), _col("strand", "strand", _STRANDS)]
 _GTF = [_col("chromosome", "str", _CHROMS), _col("source", "str", ["src", "s", "hav", "x", "yy", "z"]),
         _col("feature_type", "str", ["gene", "exon", "CDS", "gene", "exon", "gene"]),
         _col("start", "int", _STARTS), _col("stop", "int", _STOPS), _col("score", "str", [".", "1", ".", "22", ".", "."]),
         _col("strand", "strand", _STRANDS), _col("phase", "str", [".", "0", "1", ".", "2", "."]),
-        _col("atributes", "str", ['gene_id "g1";', 'gene_id "g2"; x "y";', 'gene_id "g";', 'a "b";', 'gene_id "q";', 'c "d";'])]
-_GFF = _GTF[:8] + [_col("atributes", "str", ["ID=g1", "ID=e1;Parent=g1", "ID=c", "ID=g22;Name=n", "ID=x", "ID=y"])]
+        _col("atributes", "str", ['g "1";', 'g "2"; x "y";', 'g "3";', 'a "b";', 'g "q";', 'c "d";'])]
+_GFF = _GTF[:8] + [_col("atributes", "str", ["ID=g", "ID=e;P=g", "ID=c", "ID=g2;N=n", "ID=x", "ID=y"])]
 
 FORMATS = {f.name: f for f in [
     Fmt("fastq", ".fq", "oneline", 4),
@@ -104,7 +106,7 @@ FORMATS = {f.name: f for f in [
     Fmt("bed6", ".bed", "delimited", cols=_BED6, buffer="Bed6Buffer"),
     Fmt("bdg", ".bdg", "delimited", cols=_BED3 + [_col("value", "float", _FLOATS)]),
     Fmt("narrowpeak", ".narrowPeak", "delimited",
-        cols=_BED6 + [_col("signal_value", "float", _FLOATS), _col("p_value", "float", _FLOATS2),
+        cols=_BED6 + [_col("signal_value", "float", _FLOATS), _col("p_value", "floatexp", _FLOATS2),
                       _col("q_value", "float", _FLOATS), _col("summit", "int", _SCORES)]),
     Fmt("vcf", ".vcf", "delimited", header="##fileformat=VCFv4.2\n#CHROM\tPOS\tID\tREF\tALT\tQUAL\tFILTER\tINFO\n",
         cols=[_col("chromosome", "str", _CHROMS), _col("position", "int", _STOPS), _col("id", "str", [".", "rs1", ".", "rs22", ".", "."]),
@@ -120,9 +122,6 @@ FORMATS = {f.name: f for f in [
               _col("extra", "extra", ["NM:i:0", None, "NM:i:1\tAS:i:33", None, "XS:i:2", None])]),
     Fmt("gtf", ".gtf", "delimited", cols=_GTF),
     Fmt("gff", ".gff", "delimited", cols=_GFF),
-    Fmt("csv", ".csv", "delimited", buffer="csv", delimiter=",",
-        cols=[_col("name", "str", _NAMES), _col("seq", "dna", _DNA), _col("count", "int", _SCORES),
-              _col("delta", "int", _SIGNED), _col("weight", "float", _FLOATS), _col("strand", "strand", _STRANDS)]),
     Fmt("csvh", ".csv", "delimited", buffer="csvh", delimiter=",", header="name,seq,count,delta,weight,strand\n",
         cols=[_col("name", "str", _NAMES), _col("seq", "dna", _DNA), _col("count", "int", _SCORES),
               _col("delta", "int", _SIGNED), _col("weight", "float", _FLOATS), _col("strand", "strand", _STRANDS)]),
@@ -155,7 +154,7 @@ def _fields(fmt, i):
 def _char_class(ch, kind):
     if ch == "":
         return "empty"
-    if kind in ("int", "float") and ch in "PQRSTUVWXY":
+    if kind in ("int", "optint", "float", "floatexp") and ch in "PQRSTUVWXY":
         return "plus32-image"            # DESIGN section 8: alphabet + 32 applied to non-letters
     if kind == "strand" and ch in "KMN":
         return "plus32-image"
@@ -206,18 +205,29 @@ def violations(fmt, n):
 
         for ci, c in enumerate(fmt.cols):
             kind = c["kind"]
-            if kind in ("int", "float"):
-                chars = ["x", "P", " ", ","] + (["."] if kind == "int" else ["-"])
+            if kind in ("int", "optint", "float", "floatexp"):
+                isint = kind in ("int", "optint")
+                suffix = ""
+                chars = ["x", "P", " ", ","] + (["."] if isint else ["-", "e"])
                 for ch in chars:
-                    cc = _char_class(ch, kind)
+                    cc = _char_class(ch, kind) + suffix
+                    if ch == "e":
+                        # 'e' switches the float parser to its exponent branch: a dangling or doubled exponent marker
+                        cc = "exponent-marker" + suffix
+                        add("nonnumeric|%s|e|dangling" % c["attr"], "nonnumeric", cc, put(ci, lambda v: v.split("e")[0] + "e"))
+                        add("nonnumeric|%s|e|leading" % c["attr"], "nonnumeric", cc, put(ci, lambda v: "e" + v.split("e")[0].replace(".", "")))
+                        add("nonnumeric|%s|e|word" % c["attr"], "nonnumeric", cc, put(ci, lambda v: "twenty"))
+                        add("nonnumeric|%s|e|letter-exponent" % c["attr"], "nonnumeric", cc, put(ci, lambda v: "1ex"))
+                        continue
                     # '-' in a float: only in the middle/last place (a leading '-' is a sign)
-                    if not (ch == "-"):
-                        add("nonnumeric|%s|%s|first" % (c["attr"], ch), "nonnumeric", cc, put(ci, lambda v, ch=ch: ch + v[1:] if v[0] not in "+-" else v[0] + ch + v[2:]))
-                    add("nonnumeric|%s|%s|last" % (c["attr"], ch), "nonnumeric", cc, put(ci, lambda v, ch=ch: v + ch if len(v) < 2 else v[:-1] + ch))
                     if ch != "-":
+                        add("nonnumeric|%s|%s|first" % (c["attr"], ch), "nonnumeric", cc, put(ci, lambda v, ch=ch: (ch + v if len(v) < 2 else ch + v[1:]) if v[0] not in "+-" else v[0] + ch + v[2:]))
+                    add("nonnumeric|%s|%s|last" % (c["attr"], ch), "nonnumeric", cc, put(ci, lambda v, ch=ch: v + ch if len(v) < 2 else v[:-1] + ch))
+                    if ch != "-" and not (kind == "optint" and ch == "."):
                         add("nonnumeric|%s|%s|only" % (c["attr"], ch), "nonnumeric", cc, put(ci, lambda v, ch=ch: ch))
-                add("nonnumeric|%s|word|only" % c["attr"], "nonnumeric", "letter", put(ci, lambda v: "twenty"))
-                add("nonnumeric|%s||only" % c["attr"], "nonnumeric", "empty", put(ci, lambda v: ""))
+                add("nonnumeric|%s|word|only" % c["attr"], "nonnumeric", "letter" + suffix, put(ci, lambda v: "ABC"))
+                if kind != "optint":
+                    add("nonnumeric|%s||only" % c["attr"], "nonnumeric", "empty" + suffix, put(ci, lambda v: ""))
             elif kind == "strand":
                 for ch in ["x", "K", "1", " ", "*"]:
                     add("alphabet|%s|%s|only" % (c["attr"], ch), "alphabet", _char_class(ch, kind), put(ci, lambda v, ch=ch: ch))
@@ -245,18 +255,24 @@ def violations(fmt, n):
     return out
 
 
-def representative_vids(fmt, viols):
-    """one (or two) variants per (class, sub, column kind): swept over EVERY chunk size"""
+def representative_vids(fmt, viols, level):
+    """level "key": one variant per class and column KIND (the first int column, the first float column, ... with a plain
+    letter), every column-count / marker / plus variant class once.  level "column": additionally a plain letter in EVERY
+    numeric / alphabet column (digit-matrix, ragged and float paths differ by column)."""
     seen, reps = set(), []
     kind_of = {c["attr"]: c["kind"] for c in (fmt.cols or [])}
     for vid, v in viols.items():
         parts = vid.split("|")
         col = parts[1] if len(parts) > 2 else ""
-        key = (v["vclass"], v["sub"], kind_of.get(col, col if v["vclass"] != "colcount" else vid))
-        if v["vclass"] == "nonnumeric":
-            # every numeric column gets a full sweep with a letter (digit-matrix / ragged / float paths differ by column)
-            key = (v["vclass"], v["sub"], col if v["sub"] == "letter" else kind_of.get(col))
-        if key in seen:
+        if v["vclass"] in ("nonnumeric", "alphabet"):
+            if not v["sub"].startswith("letter"):
+                continue
+            key = (v["vclass"], kind_of[col] if level == "key" else col)
+        elif v["vclass"] == "colcount":
+            key = (v["vclass"], v["sub"])
+        else:
+            key = (v["vclass"], v["sub"]) if (level == "column" or v["sub"] in ("replaced", "deleted-line")) else None
+        if key is None or key in seen:
             continue
         seen.add(key)
         reps.append(vid)
@@ -314,20 +330,36 @@ def do_read(path, bt, mode, cs, lazy):
             pass
 
 
-def _layer(lazy, mode, n_before):
-    return "%s:%s" % ("lazy" if lazy else "eager", "read" if mode == "read" else ("first-chunk" if n_before == 0 else "later-chunk"))
+_VCACHE = {}
+
+
+def _viols(fmt, n):
+    k = (fmt.name, n)
+    if k not in _VCACHE:
+        _VCACHE[k] = violations(fmt, n)
+    return _VCACHE[k]
 
 
 class FileUnderTest:
     def __init__(self, col, tmp, fmt, n, vid, q):
         self.col, self.fmt, self.n, self.vid, self.q = col, fmt, n, vid, q
         self.data, self.expected = build(fmt, n, vid, q)
-        self.v = violations(fmt, n)[vid] if vid is not None else None
+        self.v = _viols(fmt, n)[vid] if vid is not None else None
         base = os.path.join(tmp, "f%d" % col.evaluations)
         self.paths = {False: base + fmt.suffix, True: base + fmt.suffix + ".gz"}
         self._written = set()
-        self.fe_seen = None       # first config that gave a FormatException
-        self.nonfe_seen = None    # first config that raised something else
+        self.fe_seen = None       # first configuration that gave a FormatException
+        self.nonfe_seen = None    # first configuration that raised something else
+        self.local_deltas = set()  # reported - expected seen where no earlier chunk was involved
+        # the violated column is a float column that, in this file, mixes values with and without an exponent marker
+        self.mixed_exp = False
+        if self.v is not None and self.v["vclass"] == "nonnumeric":
+            attr = vid.split("|")[1]
+            ci = [c["attr"] for c in fmt.cols].index(attr)
+            if fmt.cols[ci]["kind"] in ("float", "floatexp"):
+                body = self.data[len(fmt.header):].decode().split("\n")[:-1]
+                vals = [ln.split(fmt.delimiter)[ci] for ln in body]
+                self.mixed_exp = any("e" in x for x in vals) and not all("e" in x for x in vals)
 
     def path(self, gz):
         p = self.paths[gz]
@@ -355,9 +387,11 @@ class FileUnderTest:
         col, fmt, v = self.col, self.fmt, self.v
         case = self.case(mode, cs, lazy, gz)
         out = do_read(self.path(gz), fmt.buffer_type(), mode, cs, lazy)
+        col.per_format[fmt.name] = col.per_format.get(fmt.name, 0) + 1
         if v is None:
+            # guards the generator only: the well-formed file is accepted (how many records arrive is C01's business)
             col.case(case, contract="baseline")
-            col.check(out == ("ok", self.n), "generator:wellformed-file-not-read:%s" % fmt.name, case,
+            col.check(out[0] == "ok", "generator:wellformed-file-rejected:%s" % fmt.name, case,
                       "well-formed %s file: %r (data %r)" % (fmt.name, out, self.data))
             return out
         col.case(case, contract="reported")
@@ -367,16 +401,26 @@ class FileUnderTest:
         col.check(not accepted, "%s:no-error-table-delivered:%s" % (ident, fam), case,
                   "record %d of %d violates the format (%s) but %s; data %r" % (
                       self.q, self.n, self.vid,
-                      "the read completed with %d records" % out[1] if out[0] == "ok" else
+                      "the read completed with %d records and no error" % out[1] if out[0] == "ok" else
                       "%d records were delivered before the error %r" % (out[2], out[:2]), self.data))
         if out[0] == "FE":
             col.case({"k": "line", **case}, contract="line-number")
-            sig = "%s:wrong-line-number:%s:%s" % (ident, fam, _layer(lazy, mode, out[2]))
-            if not v["diagnosed"]:
-                sig = "%s:format-exception-with-other-line:%s" % (ident, fam)
-            col.check(out[1] == self.expected, sig, case,
-                      "FormatException.line_number = %r, offending line is %r (records before it delivered: %d); data %r" % (
-                          out[1], self.expected, out[2], self.data))
+            if out[1] != self.expected:
+                delta = out[1] - self.expected if isinstance(out[1], int) else "nan"
+                first = mode == "read" or out[2] == 0
+                if first:
+                    self.local_deltas.add(delta)
+                if not v["diagnosed"]:
+                    sig = "%s:format-exception-with-other-line:%s" % (ident, fam)
+                elif self.mixed_exp and (first or delta in self.local_deltas):
+                    sig = "nonnumeric:float-column-mixing-exponent-and-plain-values:wrong-line-number:%s:within-chunk" % fam
+                elif first or delta in self.local_deltas:
+                    # wrong although no earlier chunk contributes (or: wrong by the same amount as in that situation)
+                    sig = "%s:wrong-line-number:%s:within-chunk" % (ident, fam)
+                else:
+                    sig = "%s:wrong-line-number:%s:chunk-offset:%s" % (ident, fam, "lazy" if lazy else "eager")
+                col.fail(sig, case, "FormatException.line_number = %r, offending line is %r (records delivered in earlier chunks: "
+                                    "%d); data %r" % (out[1], self.expected, out[2], self.data))
             if self.fe_seen is None:
                 self.fe_seen = case
         elif out[0] == "ERR":
@@ -399,108 +443,164 @@ class FileUnderTest:
 
 # --------------------------------------------------------------------------------------------------------------
 
-def chunk_sizes(fmt, data, n, tier, full):
+def chunk_sizes(fmt, data, n, plan):
     L = len(data) - len(fmt.header)
-    if full and tier == "thorough":
+    if plan == "all":
         return list(range(1, L + 3))
-    if full:
-        # record boundaries and their neighbours, the small sizes, the whole file and beyond
-        body = data[len(fmt.header):]
-        nl = [i + 1 for i, b in enumerate(body) if b == 10]
-        step = max(fmt.lpr, 1)
-        bounds = nl[step - 1::step] if fmt.kind != "multiline" else nl
-        s = {1, 2, 3, 5, L - 1, L, L + 1, L + 2}
+    body = data[len(fmt.header):]
+    nl = [i + 1 for i, b in enumerate(body) if b == 10]
+    step = max(fmt.lpr, 1)
+    bounds = nl[step - 1::step] if fmt.kind != "multiline" else nl
+    if plan == "boundaries":
+        # record boundaries and their neighbours, single record lengths, the smallest sizes, the whole file and beyond
+        s = {1, 2, L - 1, L, L + 1}
         prev = 0
         for b in bounds:
-            s.update((b - 1, b, b + 1, b - prev, b - prev + 1))
+            s.update((b - 1, b, b + 1, b - prev))
             prev = b
         return sorted(x for x in s if 1 <= x <= L + 2)
-    # variant sweep: every record its own chunk, about two records per chunk, everything in one chunk
-    return sorted({1, max(2, (2 * L) // n + 1), L + 1})
+    # "few": every record its own chunk / about two records per chunk / everything in one chunk
+    return sorted({1, min(L + 1, (bounds[min(1, len(bounds) - 1)] if bounds else L) + 1), L + 1})
 
 
-def run(tier="quick", seed=0):
-    n = 3 if tier == "quick" else 4
-    col = Collector("C15", tier, seed,
-                    "per format: well-formed file of N records of unequal widths, ONE violation (class x variant) injected at every "
-                    "record position q; read with read() and read_chunks(cs) x {eager, lazy+materialise} x {plain, gzip}. "
-                    "Sweep A (one representative variant per class/column): every chunk size (quick: record boundaries +-1, small "
-                    "sizes, file size +-2). Sweep B (every variant: bad character x placement x column): read() and 3 chunk sizes. "
-                    "distinct = (format, violation, q, read configuration); every case is non-trivial (a malformed file)")
-    col.bounds = {"formats": sorted(FORMATS), "records_N": n, "positions_q": "0..N-1 (wrapped fasta: 0)",
-                  "chunk_sizes_A": "1..len+2" if tier == "thorough" else "boundaries+-1, 1,2,3,5, len-1..len+2",
-                  "chunk_sizes_B": "1, ~2 records, len+1", "lazy": [False, True], "gzip": [False, True],
-                  "bad_characters": {"int": "x P ' ' , . twenty ''", "float": "x P ' ' , - twenty ''", "strand": "x K 1 ' ' *",
-                                     "dna": "x N 1 ' ' -"}, "placements": ["first", "last", "only"]}
-    prev_disable = logging.root.manager.disable
-    logging.disable(logging.CRITICAL)
-    try:
-        with TmpDir() as tmp:
-            _run(col, tmp, tier, n)
-    finally:
-        logging.disable(prev_disable)
-    return col.result()
-
-
-def _sweep(col, tmp, fmt, n, vid, q, tier, full):
+def _sweep(col, tmp, fmt, n, vid, q, plan, gz_plan):
+    """plan: all | boundaries | few (chunk sizes);  gz_plan: full | thin | one | none"""
     fut = FileUnderTest(col, tmp, fmt, n, vid, q)
     try:
-        sizes = chunk_sizes(fmt, fut.data, n, tier, full)
-        gzs = (False, True) if (full or tier == "thorough") else (False,)
-        for gz in gzs:
+        sizes = chunk_sizes(fmt, fut.data, n, plan)
+        for lazy in (False, True):
+            fut.evaluate("read", 0, lazy, False)
+            for cs in sizes:
+                fut.evaluate("chunks", cs, lazy, False)
+        if gz_plan == "full":
+            gsizes = sizes
+        elif gz_plan == "thin":
+            gsizes = sizes[1::3]
+        elif gz_plan == "one":
+            gsizes = sizes[1:2]
+        else:
+            gsizes = None
+        if gsizes is not None:
             for lazy in (False, True):
-                fut.evaluate("read", 0, lazy, gz)
-                for cs in sizes:
-                    if gz and full and tier == "quick" and cs not in sizes[::3]:
-                        continue
-                    fut.evaluate("chunks", cs, lazy, gz)
+                if gz_plan != "one" or lazy:
+                    fut.evaluate("read", 0, lazy, True)
+                for cs in gsizes:
+                    if gz_plan != "one" or not lazy:
+                        fut.evaluate("chunks", cs, lazy, True)
         fut.finish()
     finally:
         fut.cleanup()
 
 
-def _run(col, tmp, tier, n):
+def run(tier="quick", seed=0):
+    quick = tier == "quick"
+    n = 3 if quick else 4
+    col = Collector("C15", tier, seed,
+                    "per format: well-formed file of N records of unequal widths, ONE violation (class x variant) injected at every "
+                    "record position q; read with read() and read_chunks(cs) x {eager, lazy+materialise} x {plain, gzip}. "
+                    "Phase A: key variants (one per class and column kind) x chunk sizes " +
+                    ("{record boundaries +-1, record lengths, 1, 2, len-1..len+1}" if quick else "1..len+2 (all)") +
+                    "; phase A2: a letter in every numeric/alphabet column, every marker/plus variant x boundary chunk sizes; "
+                    "phase B: every variant (bad character x placement x column) x read() + 3 chunk sizes" +
+                    (" (seeded sample within the time budget)" if quick else "") +
+                    ". distinct = (format, violation, q, read configuration); every case but the baseline is a malformed file",
+                    budget_s=52 if quick else 560)
+    col.per_format = {}
+    col.bounds = {"formats": sorted(FORMATS), "records_N": n, "positions_q": "0..N-1 (wrapped fasta: 0)",
+                  "chunk_sizes_A": "boundaries+-1, record lengths, 1, 2, len-1..len+1" if quick else "1..len+2",
+                  "chunk_sizes_A2": "boundaries+-1, record lengths, 1, 2, len-1..len+1",
+                  "chunk_sizes_B": "1, first two records + 1, len+1", "lazy": [False, True], "gzip": [False, True],
+                  "bad_characters": {"int": "x P ' ' , . ABC ''", "float": "x P ' ' , - ABC '' and exponent forms 1e e1 twenty 1ex", "strand": "x K 1 ' ' *",
+                                     "dna": "x N 1 ' ' -"}, "placements": ["first", "last", "only"]}
+    prev_disable = logging.root.manager.disable
+    logging.disable(logging.CRITICAL)
+    try:
+        with TmpDir() as tmp:
+            _run(col, tmp, quick, n)
+    finally:
+        logging.disable(prev_disable)
+    col.bounds["evaluations_per_format"] = dict(col.per_format)
+    col.bounds["phases_completed"] = col.phases
+    return col.result()
+
+
+def _run(col, tmp, quick, n):
     order = list(FORMATS.values())
-    # baseline: the generator's well-formed files are read by the unchanged API in every configuration used below
+    col.phases = []
+    # baseline: the generator's well-formed files are accepted in the configurations used below
     for fmt in order:
-        _sweep(col, tmp, fmt, n, None, None, tier, True)
-    # sweep A first for all formats (breadth), then sweep B
-    todo_b = []
-    for fmt in order:
-        viols = violations(fmt, n)
-        reps = representative_vids(fmt, viols)
-        for vid in viols:
-            for q in viols[vid]["positions"]:
-                if vid in reps:
+        _sweep(col, tmp, fmt, n, None, None, "boundaries", "thin" if quick else "full")
+    col.phases.append("baseline@%ds" % (time.time() - col.t0))
+    done = set()
+
+    def phase(name, level, plan, gz_plan):
+        for fmt in order:
+            viols = _viols(fmt, n)
+            for vid in representative_vids(fmt, viols, level):
+                for q in viols[vid]["positions"]:
+                    if (fmt.name, vid, q, plan) in done or (fmt.name, vid, q, "all") in done:
+                        continue
                     if col.out_of_time():
-                        return
-                    _sweep(col, tmp, fmt, n, vid, q, tier, True)
-                else:
-                    todo_b.append((fmt, vid, q))
-    if tier == "quick":
-        # sample sweep B evenly over the formats within the remaining budget (seeded); thorough: all of it
-        col.rng.shuffle(todo_b)
+                        return False
+                    _sweep(col, tmp, fmt, n, vid, q, plan, gz_plan)
+                    done.add((fmt.name, vid, q, plan))
+        col.phases.append("%s@%ds" % (name, time.time() - col.t0))
+        return True
+
+    if quick:
+        if not phase("A", "key", "boundaries", "thin"):
+            return
+    else:
+        if not phase("A", "key", "all", "thin"):
+            return
+        if not phase("A2", "column", "boundaries", "thin"):
+            return
+    todo_b = [(fmt, vid, q) for fmt in order for vid, v in _viols(fmt, n).items() for q in v["positions"]
+              if not any((fmt.name, vid, q, p) in done for p in ("all", "boundaries"))]
+    # B1: for every format one variant of every (class, sub-class) at a rotating position, in fixed order;
+    # B2: the rest (quick: a seeded sample, spread over the formats, within the remaining budget)
+    seen, b1, b2 = {}, [], []
     for fmt, vid, q in todo_b:
+        v = _viols(fmt, n)[vid]
+        key = (fmt.name, v["vclass"], v["sub"])
+        if key not in seen:
+            seen[key] = (vid, v["positions"][len(seen) % len(v["positions"])])
+        (b1 if seen[key] == (vid, q) else b2).append((fmt, vid, q))
+    if quick:
+        col.rng.shuffle(b2)
+    todo_b = b1 + b2
+    col.bounds["phase_B_files"] = len(todo_b)
+    for k, (fmt, vid, q) in enumerate(todo_b):
+        col.bounds["phase_B_files_done"] = k
         if col.out_of_time():
             return
-        _sweep(col, tmp, fmt, n, vid, q, tier, False)
+        _sweep(col, tmp, fmt, n, vid, q, "few", "none" if quick else "one")
+    col.phases.append("B@%ds" % (time.time() - col.t0))
 
 
 def replay(case):
     col = Collector("C15", "quick", 0, "replay")
+    col.per_format = {}
     fmt = FORMATS[case["fmt"]]
     prev_disable = logging.root.manager.disable
     logging.disable(logging.CRITICAL)
     try:
         with TmpDir() as tmp:
             fut = FileUnderTest(col, tmp, fmt, case["n"], case["vid"], case["q"])
-            out = fut.evaluate(case["mode"], case["cs"], case["lazy"], case["gz"])
-            msg = "outcome %r, expected line %r, data %r" % (out, fut.expected, fut.data)
-            if "other" in case:
-                o = case["other"]
-                fut.evaluate(o["mode"], o["cs"], o["lazy"], o["gz"])
-                fut.finish()
-            fut.cleanup()
+            try:
+                if case["mode"] != "read" and case["vid"] is not None:
+                    # the "within-chunk" classification refers to the whole-file read of the same file
+                    fut.evaluate("read", 0, case["lazy"], False)
+                    col.failures.clear()
+                    col._fail_sigs.clear()
+                out = fut.evaluate(case["mode"], case["cs"], case["lazy"], case["gz"])
+                msg = "outcome %r, expected line %r, data %r" % (out, fut.expected, fut.data)
+                if "other" in case:
+                    o = case["other"]
+                    fut.evaluate(o["mode"], o["cs"], o["lazy"], o["gz"])
+                    fut.finish()
+            finally:
+                fut.cleanup()
     finally:
         logging.disable(prev_disable)
     if col.failures:
